@@ -21,7 +21,9 @@ static int BPlusTree_clear(BPlusTree *self);
 
 PyObject *
 BPlusTree_new(PyTypeObject *type, PyObject *args, PyObject *kwds) {
-    BPlusTree *self = PyObject_GC_New(BPlusTree, type);
+    /* tp_alloc sizes the instance for `type` (which may be a Python subclass
+     * with a __dict__) and tracks it for the GC */
+    BPlusTree *self = (BPlusTree *)type->tp_alloc(type, 0);
     if (self != NULL) {
         self->root = NULL;
         self->leaves = NULL;
@@ -29,7 +31,6 @@ BPlusTree_new(PyTypeObject *type, PyObject *args, PyObject *kwds) {
         self->min_keys = DEFAULT_CAPACITY / 2;
         self->size = 0;
         self->modification_count = 0;
-        PyObject_GC_Track(self);
     }
     return (PyObject *)self;
 }
@@ -71,7 +72,7 @@ BPlusTree_dealloc(BPlusTree *self) {
     if (self->root) {
         node_destroy(self->root);
     }
-    PyObject_GC_Del(self);
+    Py_TYPE(self)->tp_free((PyObject *)self);
 }
 
 PyObject *
